@@ -175,6 +175,9 @@ fn main() {
         // came from (library panics only; scenario stalls and harness panics are handled here)
         if verbose || ((msg.contains("/quic/s2n-quic") || msg.contains("/dc/s2n-quic-dc") || msg.contains("/common/s2n-codec")) && !msg.contains("the runtime stalled")) {
             eprintln!("PANIC: {msg}");
+            if std::env::var("VQ_BACKTRACE").is_ok() {
+                eprintln!("{}", std::backtrace::Backtrace::force_capture());
+            }
         }
         *PANIC_MSG.lock().unwrap() = Some(msg);
     }));
